@@ -21,7 +21,7 @@ CPython behaviour; it matters only when an exception of the expected format's in
 
 Oracle (model-free, demands what the property text states): see oracle().
 
-  {'op':'indep','a':<wrap case>,'b':<wrap case>,['pre':<wrap case>],'bfirst':bool,['post':1]}   the session a alone, and again while a
+  {'op':'indep','a':<wrap case>,'b':<wrap case>,['pres':[<wrap case>...]],'bfirst':bool,['post':1]}   the session a alone, and again while a
      second live wrapper runs b interleaved call by call (a third one, pre, is created, fed and discarded before): every observation of a
      must be identical (detection depends on the content handed to THAT wrapper only).  {'op':'detect2','d','o'}: detect_file_format(d)
      alone and after detect_file_format(o).  Not modelled (the model has no state outside a wrapper); model-free oracle only.
@@ -210,9 +210,11 @@ def run_indep(c):
     """the case c['a'] alone, and again while a second wrapper reads c['b'] interleaved call by call (a third wrapper
     is created, fed and discarded before): every observation of the first must be identical"""
     alone = run_wrap(c['a'])
-    if 'pre' in c:
-        p = Sess(c['pre'])
-        for op in c['pre']['ops']: p.do(op)
+    fresh_table()
+    for pc in c.get('pres', ([c['pre']] if 'pre' in c else [])):
+        p = Sess(pc)                                   # constructed ...
+        for op in pc['ops']: p.do(op)                  # ... fed (ops may be empty: discarded without reading)
+        del p
     if c.get('bfirst'):
         B = Sess(c['b']); A = Sess(c['a'])
     else:
@@ -266,18 +268,50 @@ def run_detect(c):
     return '%s@%d|%s|%s' % (res, w.c03_read, 'True' if getattr(w._source, 'closed', False) else 'False', state(w))
 
 def run_detect2(c):
-    """detect_file_format on c['d'] alone, and after a call on another file c['o']: same answer"""
+    """detect_file_format on c['d'] alone, and after a call on another file c['o'] (and after wrappers with restricted
+    allowed_formats were constructed): same answer"""
     alone = run_detect({'op': 'detect', 'd': c['d']})
+    fresh_table()
+    for pc in c.get('pres', []):
+        p = Sess(pc)
+        for op in pc['ops']: p.do(op)
+        del p
     run_detect({'op': 'detect', 'd': c['o']})
     after = run_detect({'op': 'detect', 'd': c['d']})
     return ('SAME|' + alone) if after == alone else ('DIFF|' + alone + '|#|' + after)
 
+# the module-level table as it was when the module was imported (before any wrapper existed)
+_TABLE = None
+def fresh_table():
+    """put ALL_FORMATS back to its import-time content (a case must not inherit damage done by an earlier one)"""
+    global _TABLE
+    fi = _fi()
+    if _TABLE is None: _TABLE = list(fi.ALL_FORMATS.items())
+    if list(fi.ALL_FORMATS.items()) != _TABLE:
+        fi.ALL_FORMATS.clear(); fi.ALL_FORMATS.update(_TABLE)
+
+def table_damage():
+    fi = _fi()
+    now = list(fi.ALL_FORMATS.items())
+    if now != _TABLE:
+        return 'ALL_FORMATS=' + '+'.join(k for k, _ in now)
+    bad = [k for k, v in _TABLE if fi.get_inspector(k) is not v]
+    if bad: return 'get_inspector:' + '+'.join(bad)
+    return None
+
 def impl(c):
-    if c['op'] == 'wrap': return run_wrap(c)
-    if c['op'] == 'detect': return run_detect(c)
-    if c['op'] == 'indep': return run_indep(c)
-    if c['op'] == 'detect2': return run_detect2(c)
-    raise KeyError(c['op'])
+    fresh_table()
+    if c['op'] == 'wrap': out = run_wrap(c)
+    elif c['op'] == 'detect': out = run_detect(c)
+    elif c['op'] == 'indep': out = run_indep(c)
+    elif c['op'] == 'detect2': out = run_detect2(c)
+    else: raise KeyError(c['op'])
+    d = table_damage()
+    fresh_table()
+    return out + ('|!TABLE:' + d if d else '')
+
+def project(c, io_):
+    return io_.split('|!TABLE:')[0]
 
 def encode(c):
     if c['op'] in ('indep', 'detect2'): return None        # model-free family (the model has no shared state by construction)
@@ -353,10 +387,18 @@ def first_diff(io_):
 
 def oracle(c, io_):
     if io_.startswith('HARNESS-ERROR'): return io_
+    if '|!TABLE:' in io_:
+        io_, _, dmg = io_.partition('|!TABLE:')
+        m = oracle(c, io_) if c['op'] in ('indep', 'detect2') and io_.startswith('DIFF|') else None
+        return ((m + '; ' if m else '') +
+                'the module-level format table was changed by this case (%s; it had %s): allowed_formats must restrict THIS wrapper only'
+                % (dmg, '+'.join(FORMATS)))
     if c['op'] == 'indep':
         if io_.startswith('DIFF|'):
-            return ('detection depends on ANOTHER wrapper in the same process: content A %s gives different format/formats/exceptions when a second '
-                    'wrapper reads content B %s interleaved (%s)' % (json.dumps(c['a']['d']), json.dumps(c['b']['d']), first_diff(io_)))
+            return ('detection depends on ANOTHER wrapper in the same process: content A %s (allowed_formats=%r) gives different format/formats/exceptions when '
+                    'wrappers %r were used before and a second wrapper (allowed_formats=%r) reads content B %s interleaved (%s)'
+                    % (json.dumps(c['a']['d']), c['a'].get('allowed'), [(p.get('allowed'), len(p['ops'])) for p in c.get('pres', [])], c['b'].get('allowed'),
+                       json.dumps(c['b']['d']), first_diff(io_)))
         return oracle(c['a'], io_[5:])
     if c['op'] == 'detect2':
         if io_.startswith('DIFF|'):
@@ -437,6 +479,7 @@ def check_content(fm, fs, content, allowed, where):
 # ------------------------------------------------------------------ generators
 ALLOW_FAMILY = [None, None, None, [], ['raw'], ['qcow2'], ['qcow2', 'raw'], ['vhdx'], ['vhdx', 'raw'], ['vhd', 'vhdx'], ['vmdk', 'raw'],
                 ['iso', 'gpt'], ['iso', 'gpt', 'raw'], ['gpt'], ['luks', 'vdi', 'qed'], NONRAW, ['foo'], ['foo', 'raw'], ['RAW', 'vhd']]
+ALLOW_OTHER = [None, ['raw'], ['qcow2'], ['vhd'], ['vhd', 'raw'], ['vmdk', 'vhdx'], ['iso', 'gpt', 'raw'], ['luks', 'vdi', 'qed'], ['qcow2', 'raw'], list(FORMATS), NONRAW, []]
 SIGNAMES = list(imgbuild.SIGNATURES)
 DECISION = [4, 6, 8, 32, 64, 512, 592, 32768, 34816, 192 * KI, 256 * KI]
 
@@ -602,22 +645,37 @@ def indep_cases(rng, tier):
             else: bspec = rng.choice(base)[0]
             bn = len(data_of(bspec))
             if bn > 2 * MI: continue
-            b = mk_case(rng, bspec, bn, 'partner', style=rng.choice(['detect', 'small', 'one', 'k64']) if bn <= 70000 else 'k64', allowed=None, exp=None, kind='f')
+            b = mk_case(rng, bspec, bn, 'partner', style=rng.choice(['detect', 'small', 'one', 'k64']) if bn <= 70000 else 'k64',
+                        allowed=rng.choice(ALLOW_OTHER), exp=None, kind='f')
             c = {'op': 'indep', 'a': a, 'b': b, 'bfirst': rng.random() < 0.5, 'k': lab}
-            if rng.random() < 0.5:
+            # wrappers used and discarded before: allow-lists chosen independently of a's (restricted subset first, then
+            # None / a disjoint subset / the full list); some are constructed and dropped without a single read
+            pres = []
+            for _ in range(rng.choice([0, 1, 1, 2, 3])):
                 pspec = rng.choice(base)[0]
-                if len(data_of(pspec)) <= 70000:
-                    c['pre'] = mk_case(rng, pspec, len(data_of(pspec)), 'discarded', style='one', allowed=None, exp=None, kind='f')
+                if len(data_of(pspec)) > 70000: continue
+                pc = mk_case(rng, pspec, len(data_of(pspec)), 'discarded', style='one', allowed=rng.choice(ALLOW_OTHER), exp=None, kind='f')
+                if rng.random() < 0.4: pc['ops'] = []
+                pres.append(pc)
+            if pres: c['pres'] = pres
             if rng.random() < 0.5: c['post'] = 1
             yield c
     for spec, n, lab in rng.sample(base, min(len(base), 16 if tier == 'quick' else 60)):
         other = rng.choice([partner_spec(rng, data_of(spec)), rng.choice(base)[0]])
         if n <= 2 * MI and len(data_of(other)) <= 2 * MI:
-            yield {'op': 'detect2', 'd': spec, 'o': other, 'k': 'detect2:' + lab}
+            c = {'op': 'detect2', 'd': spec, 'o': other, 'k': 'detect2:' + lab}
+            if rng.random() < 0.6:
+                pspec = rng.choice(base)[0]
+                if len(data_of(pspec)) <= 70000:
+                    pc = mk_case(rng, pspec, len(data_of(pspec)), 'discarded', style='one', allowed=rng.choice(ALLOW_OTHER[1:]), exp=None, kind='f')
+                    if rng.random() < 0.4: pc['ops'] = []
+                    c['pres'] = [pc]
+            yield c
 
 def gen_cases(rng, tier):
-    yield from gen_cases_single(rng, tier)
-    yield from indep_cases(rng, tier)
+    single = list(gen_cases_single(rng, tier))
+    yield from indep_cases(rng, tier)        # first: their failures name a concrete PAIR of contents / allow-lists
+    yield from single
 
 def gen_cases_single(rng, tier):
     reps = 3 if tier == 'quick' else 4
